@@ -1,0 +1,237 @@
+//go:build verif
+
+// Contracts for the TLS record layer (conn.go, AEAD nonce wrappers of cipher_suites.go),
+// properties C25 / C32. Comment-only file, compiled only with -tags verif.
+
+package tls
+
+// ---------------------------------------------------------------- conn.go: CBC padding
+//
+// RFC 5246 6.2.3.2: the last octet of a GenericBlockCipher plaintext is padding_length = p;
+// it is preceded by p padding octets that all hold the value p, and "the receiver MUST
+// check this padding". So the padding is good iff p+1 octets exist and the last p+1 octets
+// all equal p; then p+1 octets are to be removed. On bad padding exactly the length octet
+// is removed (so that the MAC is computed over everything else, RFC 5246 6.2.3.2 note on
+// timing). p+1 <= 256, so never more than 256 octets are inspected.
+//@ pred rcPadLast(b) = b[len(b)-1]
+//@ pred rcPadGood(b) = len(b) >= 1 && int(rcPadLast(b)) + 1 <= len(b) && forall(k, 0, int(rcPadLast(b)) + 1, b[len(b)-1-k] == rcPadLast(b))
+
+//@ func extractPadding
+//@   requires len(payload) <= 1<<31
+//@   ensures  good == 0 || good == 255
+//@   ensures  good == 255 <==> rcPadGood(payload)
+//@   ensures  len(payload) >= 1 ==> toRemove == ite(good == 255, int(rcPadLast(payload)) + 1, 1)
+//@   ensures  len(payload) == 0 ==> toRemove == 0
+//@   ensures  0 <= toRemove && toRemove <= len(payload) && toRemove <= 256
+//@   loop 1 invariant 0 <= i && i <= 256 && i <= len(payload) && paddingLen == rcPadLast(payload)
+//@   loop 1 invariant good == 255 ==> int(paddingLen) + 1 <= len(payload) && forall(k, 0, i, k <= int(paddingLen) ==> payload[len(payload)-1-k] == paddingLen)
+//@   loop 1 invariant good != 255 ==> int(paddingLen) + 1 > len(payload) || exists(k, 0, i, k <= int(paddingLen) && payload[len(payload)-1-k] != paddingLen)
+//@   modifies nothing
+//@   terminates
+
+// roundUp(a, b) is the least multiple of b that is not below a.
+//@ func roundUp
+//@   requires 0 <= a && a < 1<<31 && 0 < b && b < 1<<31
+//@   ensures  a <= result && result - a < b
+//@   modifies nothing
+//@   terminates
+
+// sliceForAppend: "head is the full extended slice, while tail is the appended part. If the
+// original slice has sufficient capacity no allocation is performed."
+//@ func sliceForAppend
+//@   requires 0 <= n && n <= 1<<32
+//@   ensures  len(head) == len(in) + n && len(tail) == n && same(tail, head[len(in):])
+//@   ensures  forall(k, 0, len(in), head[k] == old(in[k]))
+//@   ensures  cap(in) >= len(in) + n ==> same(head, in[:len(in)+n])
+//@   ensures  cap(in) < len(in) + n ==> fresh(head) && cap(head) == len(in) + n
+//@   modifies nothing
+//@   alloc <= len(in) + n
+//@   terminates
+
+// ---------------------------------------------------------------- conn.go: sequence number
+//
+// RFC 5246 6.1: sequence numbers are uint64, "incremented by one after each record", and
+// "sequence numbers do not wrap". The counter is kept big-endian in hc.seq.
+//@ pred rcSq(hc, k) = (&hc.seq)[k]
+//@ pred rcSeqVal(hc) = uint64(rcSq(hc, 0))<<56 | uint64(rcSq(hc, 1))<<48 | uint64(rcSq(hc, 2))<<40 | uint64(rcSq(hc, 3))<<32 | uint64(rcSq(hc, 4))<<24 | uint64(rcSq(hc, 5))<<16 | uint64(rcSq(hc, 6))<<8 | uint64(rcSq(hc, 7))
+//@ pred rcInSeq(hc, p) = p == &(&hc.seq)[0] || p == &(&hc.seq)[1] || p == &(&hc.seq)[2] || p == &(&hc.seq)[3] || p == &(&hc.seq)[4] || p == &(&hc.seq)[5] || p == &(&hc.seq)[6] || p == &(&hc.seq)[7]
+// loop state of incSeq before handling byte i: the bytes behind i were 0xff and are 0 now, the others are untouched
+//@ pred rcCarried(hc, i, k) = i < k ==> rcSq(hc, k) == 0 && old(rcSq(hc, k)) == 255
+//@ pred rcKept(hc, i, k) = i >= k ==> rcSq(hc, k) == old(rcSq(hc, k))
+
+//@ func (*halfConn).incSeq
+//@   requires hc != nil
+//@   ensures  rcSeqVal(hc) == old(rcSeqVal(hc)) + 1
+//@   panics_when rcSeqVal(hc) == 0xffffffffffffffff
+//@   loop 1 invariant -1 <= i && i <= 7
+//@   loop 1 invariant rcCarried(hc, i, 7) && rcCarried(hc, i, 6) && rcCarried(hc, i, 5) && rcCarried(hc, i, 4) && rcCarried(hc, i, 3) && rcCarried(hc, i, 2) && rcCarried(hc, i, 1) && rcCarried(hc, i, 0)
+//@   loop 1 invariant rcKept(hc, i, 7) && rcKept(hc, i, 6) && rcKept(hc, i, 5) && rcKept(hc, i, 4) && rcKept(hc, i, 3) && rcKept(hc, i, 2) && rcKept(hc, i, 1) && rcKept(hc, i, 0)
+//@   loop 1 invariant forallv(p, *byte, samebase(p, hc) && !rcInSeq(hc, p) ==> *p == old(*p))
+//@   loop 1 decreases i + 1
+//@   modifies hc.seq
+//@   terminates
+
+// ---------------------------------------------------------------- cipher_suites.go: AEAD nonce wrappers
+//
+// Both wrappers implement cipher.AEAD with an 8-byte nonce (NonceSize) on top of an AEAD with
+// a 12-byte nonce (RFC 5116 5.1-5.3, RFC 8439 2.8). The caller-visible behaviour of
+// Seal/Open is that of the inner AEAD (extern contracts of (crypto/cipher.AEAD).Seal/Open
+// in /verif/extern/record.contracts); the nonce handed to the inner AEAD is asserted at the
+// call (`at call`), and the fixed nonce material is the same after the call as before.
+//@ pred rcNm(f, k) = (&f.nonceMask)[k]
+//@ pred rcPn(f, k) = (&f.nonce)[k]
+//@ pred rcXin(f, nonce, it, k) = rcNm(f, 4+k) == ite(k < it, old(rcNm(f, 4+k)) ^ nonce[k], old(rcNm(f, 4+k)))
+//@ pred rcXout(f, nonce, it, k) = rcNm(f, 4+k) == ite(k < it, old(rcNm(f, 4+k)), old(rcNm(f, 4+k)) ^ nonce[k])
+//@ pred rcInner(a) = a != nil
+//@ pred rcAeadArgs(f, out, nonce, text, ad) = f != nil && rcInner(f.aead) && len(nonce) == 8 && sep(f, out) && sep(f, nonce) && (sep(out, text) || offset(out) + len(out) == offset(text)) && rcBefore(ad, out) && rcBefore(nonce, out)
+
+// xorNonceAEAD: RFC 8446 5.3 (also RFC 7905 2): "The 64-bit record sequence number is
+// encoded in network byte order and padded to the left with zeros to iv_length. The padded
+// sequence number is XORed with the static client_write_iv or server_write_iv."
+//@ func (*xorNonceAEAD).NonceSize
+//@   ensures result == 8
+//@   terminates
+//@ func (*xorNonceAEAD).explicitNonceLen
+//@   ensures result == 0
+//@   terminates
+//@ func (*xorNonceAEAD).Overhead
+//@   requires f != nil && f.aead != nil
+//@   ensures  0 <= result && result <= 255
+//@   terminates
+
+//@ func (*xorNonceAEAD).Seal
+//@   requires rcAeadArgs(f, out, nonce, plaintext, additionalData)
+//@   at call Seal assert len(arg2) == 12 && arg2[0] == old(rcNm(f, 0)) && arg2[1] == old(rcNm(f, 1)) && arg2[2] == old(rcNm(f, 2)) && arg2[3] == old(rcNm(f, 3)) && arg2[4] == old(rcNm(f, 4)) ^ nonce[0] && arg2[5] == old(rcNm(f, 5)) ^ nonce[1] && arg2[6] == old(rcNm(f, 6)) ^ nonce[2] && arg2[7] == old(rcNm(f, 7)) ^ nonce[3] && arg2[8] == old(rcNm(f, 8)) ^ nonce[4] && arg2[9] == old(rcNm(f, 9)) ^ nonce[5] && arg2[10] == old(rcNm(f, 10)) ^ nonce[6] && arg2[11] == old(rcNm(f, 11)) ^ nonce[7]
+//@   ensures  rcNm(f, 0) == old(rcNm(f, 0)) && rcNm(f, 1) == old(rcNm(f, 1)) && rcNm(f, 2) == old(rcNm(f, 2)) && rcNm(f, 3) == old(rcNm(f, 3)) && rcNm(f, 4) == old(rcNm(f, 4)) && rcNm(f, 5) == old(rcNm(f, 5)) && rcNm(f, 6) == old(rcNm(f, 6)) && rcNm(f, 7) == old(rcNm(f, 7)) && rcNm(f, 8) == old(rcNm(f, 8)) && rcNm(f, 9) == old(rcNm(f, 9)) && rcNm(f, 10) == old(rcNm(f, 10)) && rcNm(f, 11) == old(rcNm(f, 11))
+//@   ensures  len(result) >= len(out) + len(plaintext) && len(result) <= len(out) + len(plaintext) + 255
+//@   ensures  fresh(result) || samebase(result, out)
+//@   ensures  forall(k, 0, len(out), result[k] == old(out[k]))
+//@   loop 1 invariant 0 <= it && it <= 8 && rcNm(f, 0) == old(rcNm(f, 0)) && rcNm(f, 1) == old(rcNm(f, 1)) && rcNm(f, 2) == old(rcNm(f, 2)) && rcNm(f, 3) == old(rcNm(f, 3))
+//@   loop 1 invariant rcXin(f, nonce, it, 0) && rcXin(f, nonce, it, 1) && rcXin(f, nonce, it, 2) && rcXin(f, nonce, it, 3) && rcXin(f, nonce, it, 4) && rcXin(f, nonce, it, 5) && rcXin(f, nonce, it, 6) && rcXin(f, nonce, it, 7)
+//@   loop 2 invariant 0 <= it && it <= 8 && rcNm(f, 0) == old(rcNm(f, 0)) && rcNm(f, 1) == old(rcNm(f, 1)) && rcNm(f, 2) == old(rcNm(f, 2)) && rcNm(f, 3) == old(rcNm(f, 3))
+//@   loop 2 invariant rcXout(f, nonce, it, 0) && rcXout(f, nonce, it, 1) && rcXout(f, nonce, it, 2) && rcXout(f, nonce, it, 3) && rcXout(f, nonce, it, 4) && rcXout(f, nonce, it, 5) && rcXout(f, nonce, it, 6) && rcXout(f, nonce, it, 7)
+//@   modifies f.nonceMask, elems(out, len(out), cap(out))
+//@   terminates
+
+//@ func (*xorNonceAEAD).Open
+//@   requires rcAeadArgs(f, out, nonce, ciphertext, additionalData)
+//@   at call Open assert len(arg2) == 12 && arg2[0] == old(rcNm(f, 0)) && arg2[1] == old(rcNm(f, 1)) && arg2[2] == old(rcNm(f, 2)) && arg2[3] == old(rcNm(f, 3)) && arg2[4] == old(rcNm(f, 4)) ^ nonce[0] && arg2[5] == old(rcNm(f, 5)) ^ nonce[1] && arg2[6] == old(rcNm(f, 6)) ^ nonce[2] && arg2[7] == old(rcNm(f, 7)) ^ nonce[3] && arg2[8] == old(rcNm(f, 8)) ^ nonce[4] && arg2[9] == old(rcNm(f, 9)) ^ nonce[5] && arg2[10] == old(rcNm(f, 10)) ^ nonce[6] && arg2[11] == old(rcNm(f, 11)) ^ nonce[7]
+//@   ensures  rcNm(f, 0) == old(rcNm(f, 0)) && rcNm(f, 1) == old(rcNm(f, 1)) && rcNm(f, 2) == old(rcNm(f, 2)) && rcNm(f, 3) == old(rcNm(f, 3)) && rcNm(f, 4) == old(rcNm(f, 4)) && rcNm(f, 5) == old(rcNm(f, 5)) && rcNm(f, 6) == old(rcNm(f, 6)) && rcNm(f, 7) == old(rcNm(f, 7)) && rcNm(f, 8) == old(rcNm(f, 8)) && rcNm(f, 9) == old(rcNm(f, 9)) && rcNm(f, 10) == old(rcNm(f, 10)) && rcNm(f, 11) == old(rcNm(f, 11))
+//@   ensures  result1 == nil ==> len(result0) >= len(out) && len(result0) <= len(out) + len(ciphertext)
+//@   ensures  result1 == nil ==> fresh(result0) || samebase(result0, out)
+//@   ensures  result1 == nil ==> forall(k, 0, len(out), result0[k] == old(out[k]))
+//@   loop 1 invariant 0 <= it && it <= 8 && rcNm(f, 0) == old(rcNm(f, 0)) && rcNm(f, 1) == old(rcNm(f, 1)) && rcNm(f, 2) == old(rcNm(f, 2)) && rcNm(f, 3) == old(rcNm(f, 3))
+//@   loop 1 invariant rcXin(f, nonce, it, 0) && rcXin(f, nonce, it, 1) && rcXin(f, nonce, it, 2) && rcXin(f, nonce, it, 3) && rcXin(f, nonce, it, 4) && rcXin(f, nonce, it, 5) && rcXin(f, nonce, it, 6) && rcXin(f, nonce, it, 7)
+//@   loop 2 invariant 0 <= it && it <= 8 && rcNm(f, 0) == old(rcNm(f, 0)) && rcNm(f, 1) == old(rcNm(f, 1)) && rcNm(f, 2) == old(rcNm(f, 2)) && rcNm(f, 3) == old(rcNm(f, 3))
+//@   loop 2 invariant rcXout(f, nonce, it, 0) && rcXout(f, nonce, it, 1) && rcXout(f, nonce, it, 2) && rcXout(f, nonce, it, 3) && rcXout(f, nonce, it, 4) && rcXout(f, nonce, it, 5) && rcXout(f, nonce, it, 6) && rcXout(f, nonce, it, 7)
+//@   modifies f.nonceMask, elems(out, len(out), cap(out))
+//@   terminates
+
+// prefixNonceAEAD: RFC 5288 3: the nonce is salt (4 bytes, "the implicit part", from the key
+// block) followed by nonce_explicit (8 bytes, carried in the record).
+//@ func (*prefixNonceAEAD).NonceSize
+//@   ensures result == 8
+//@   terminates
+//@ func (*prefixNonceAEAD).explicitNonceLen
+//@   ensures result == 8
+//@   terminates
+//@ func (*prefixNonceAEAD).Overhead
+//@   requires f != nil && f.aead != nil
+//@   ensures  0 <= result && result <= 255
+//@   terminates
+
+//@ func (*prefixNonceAEAD).Seal
+//@   requires rcAeadArgs(f, out, nonce, plaintext, additionalData)
+//@   at call Seal assert len(arg2) == 12 && forall(k, 0, 4, arg2[k] == old(rcPn(f, k))) && forall(k, 0, 8, arg2[4+k] == nonce[k])
+//@   ensures  forall(k, 0, 4, rcPn(f, k) == old(rcPn(f, k)))
+//@   ensures  len(result) >= len(out) + len(plaintext) && len(result) <= len(out) + len(plaintext) + 255
+//@   ensures  fresh(result) || samebase(result, out)
+//@   ensures  forall(k, 0, len(out), result[k] == old(out[k]))
+//@   modifies f.nonce, elems(out, len(out), cap(out))
+//@   terminates
+
+//@ func (*prefixNonceAEAD).Open
+//@   requires rcAeadArgs(f, out, nonce, ciphertext, additionalData)
+//@   at call Open assert len(arg2) == 12 && forall(k, 0, 4, arg2[k] == old(rcPn(f, k))) && forall(k, 0, 8, arg2[4+k] == nonce[k])
+//@   ensures  forall(k, 0, 4, rcPn(f, k) == old(rcPn(f, k)))
+//@   ensures  result1 == nil ==> len(result0) >= len(out) && len(result0) <= len(out) + len(ciphertext)
+//@   ensures  result1 == nil ==> fresh(result0) || samebase(result0, out)
+//@   ensures  result1 == nil ==> forall(k, 0, len(out), result0[k] == old(out[k]))
+//@   modifies f.nonce, elems(out, len(out), cap(out))
+//@   terminates
+
+// ---------------------------------------------------------------- conn.go: record protection
+//
+// govc models an interface-to-interface type assertion (the `switch c := hc.cipher.(type)`
+// over cipher.Stream / aead / cbcMode) as a nondeterministic choice, so "the cipher is one of
+// the three kinds" cannot be stated: the `panic("unknown cipher type")` branches are excluded
+// with `maypanic` (the only explicit panic of these functions), every branch is checked for
+// all other panics whatever the dynamic type, and the MAC must be present whenever a cipher
+// is (it is used in the Stream and CBC branches).
+
+// "explicitNonceLen returns the number of bytes of explicit nonce or IV included in each
+// record. Explicit nonces are present only in CBC modes after TLS 1.0 and in certain AEAD
+// modes in TLS 1.2." (an IV is one cipher block, below 256 bytes: RFC 5246 6.2.3.2)
+//@ func (*halfConn).explicitNonceLen
+//@   requires hc != nil
+//@   ensures  0 <= result && result <= 255
+//@   ensures  hc.cipher == nil ==> result == 0
+//@   modifies nothing
+//@   maypanic
+//@   terminates
+
+// "maxPayloadSizeForWrite returns the maximum TLS payload size to use for the next
+// application data record": a usable fragment size, RFC 5246 6.2.1 / RFC 8446 5.1 "The
+// length MUST NOT exceed 2^14 bytes"; dynamic sizing only concerns application data.
+//@ func (*Conn).maxPayloadSizeForWrite
+//@   requires c != nil && c.config != nil && 0 <= c.packetsSent && c.packetsSent < 1<<62
+//@   requires c.out.cipher != nil ==> c.out.mac != nil
+//@   ensures  1 <= result && result <= maxPlaintext
+//@   ensures  typ != recordTypeApplicationData || c.config.DynamicRecordSizingDisabled || c.bytesSent >= recordSizeBoostThreshold ==> result == maxPlaintext && c.packetsSent == old(c.packetsSent)
+//@   ensures  c.packetsSent == old(c.packetsSent) || c.packetsSent == old(c.packetsSent) + 1
+//@   modifies c.packetsSent
+//@   maypanic
+//@   terminates
+
+// tls10MAC: RFC 2246 6.2.3.1, HMAC over seq_num + header + fragment, appended to out
+// (digest contents uninterpreted, as in the assumed contract of (hash.Hash).Sum).
+//@ func tls10MAC
+//@   requires h != nil
+//@   ensures  fresh(result) || samebase(result, out)
+//@   ensures  len(result) > len(out) && len(result) <= len(out) + 64
+//@   ensures  forall(k, 0, len(out), result[k] == old(out[k]))
+//@   modifies elems(out, len(out), cap(out))
+//@   terminates
+
+// decrypt: "authenticates and decrypts the record if protection is active at this stage. The
+// returned plaintext might overlap with the input."
+//  - never panics for any record of at least recordHeaderLen bytes (C32), given the
+//    sequence number is not exhausted (RFC 5246 6.1: "sequence numbers do not wrap");
+//  - the sequence number advances by exactly one for an accepted record and not at all for a
+//    rejected one (RFC 5246 6.1 "incremented by one after each record"; basis of the
+//    detection of dropped / duplicated / reordered records, C25);
+//  - TLS 1.3 (RFC 8446 5): a change_cipher_spec record is passed through undecrypted and
+//    does not count; otherwise the outer type is application_data and the content type is
+//    the last non-zero byte of the inner plaintext, hence not zero (the 2^14 bound on the
+//    inner plaintext cannot be stated: see the precondition on hc.mac and the notes);
+//  - with the null cipher state the fragment is returned unchanged;
+//  - decryption never expands: the plaintext is no longer than the fragment.
+//@ pred rcCCS13(hc, record) = hc.version == VersionTLS13 && old(record[0]) == uint8(recordTypeChangeCipherSpec)
+//@ func (*halfConn).decrypt
+//@   uses perreturn
+//@   requires hc != nil && len(record) >= recordHeaderLen && len(record) <= recordHeaderLen + maxCiphertext && sep(record, hc)
+//@   requires hc.cipher != nil ==> hc.mac != nil
+//@   requires rcSeqVal(hc) != 0xffffffffffffffff
+//@   at call incSeq assert rcSeqVal(hc) != 0xffffffffffffffff
+//@   ensures  [reject] result2 != nil ==> result0 == nil && rcSeqVal(hc) == old(rcSeqVal(hc))
+//@   ensures  [accept] result2 == nil && !rcCCS13(hc, record) ==> rcSeqVal(hc) == old(rcSeqVal(hc)) + 1
+//@   ensures  [ccs13] rcCCS13(hc, record) ==> result2 == nil && same(result0, record[recordHeaderLen:]) && result1 == recordTypeChangeCipherSpec && rcSeqVal(hc) == old(rcSeqVal(hc))
+//@   ensures  [null] hc.cipher == nil && hc.mac == nil && !rcCCS13(hc, record) ==> result2 == nil && same(result0, record[recordHeaderLen:]) && result1 == recordType(old(record[0]))
+//@   ensures  [noexpand] result2 == nil ==> len(result0) <= len(record) - recordHeaderLen && (fresh(result0) || samebase(result0, record))
+//@   ensures  [inner13] result2 == nil && hc.version == VersionTLS13 && hc.cipher != nil && !rcCCS13(hc, record) ==> old(record[0]) == uint8(recordTypeApplicationData) && result1 != 0
+//@   ensures  hc.version == old(hc.version) && hc.cipher == old(hc.cipher) && hc.mac == old(hc.mac)
+//@   loop 1 invariant -1 <= i && i < len(plaintext)
+//@   loop 1 decreases i + 1
+//@   modifies hc.seq, (&hc.scratchBuf)[0], (&hc.scratchBuf)[1], (&hc.scratchBuf)[2], (&hc.scratchBuf)[3], (&hc.scratchBuf)[4], (&hc.scratchBuf)[5], (&hc.scratchBuf)[6], (&hc.scratchBuf)[7], (&hc.scratchBuf)[8], (&hc.scratchBuf)[9], (&hc.scratchBuf)[10], (&hc.scratchBuf)[11], (&hc.scratchBuf)[12], elems(record, 0, cap(record))
+//@   maypanic
+//@   terminates
